@@ -24,6 +24,7 @@ m = {
  "hooks": {"guard": "PIQUASSO_VERIF", "enable": "no hook is needed: every seam already exists in the shipped code (class-level _instruction_map, dask scheduler config, module attributes for random/np.random/os.urandom, assignable Config.rng, sys.settrace); checks import /repo's working tree through /venv's editable install and compile /repo/src kernels themselves", "baseline_off_cmd": "cd /repo && /venv/bin/python -m pytest -ra -q -p no:cacheprovider --timeout=900 --continue-on-collection-errors", "source_commits": [], "add_only": True},
  "engines": [
   {"name": "crashpoints", "path": "dst/c12.py", "serves_properties": ["C12"], "kind_free_text": "seeded histories on caller-owned objects with callee-failure injection at every API-boundary call (sys.settrace), snapshot and re-execution oracles, delta-debugging shrinker"},
+  {"name": "worlds", "path": "dst/c11.py", "serves_properties": ["C11"], "kind_free_text": "cooperative baton scheduler (dst/sched.py) behind dask.config.set(scheduler=...), RNG seam in record mode with yield at every draw, interferer operations, numba thread control, permanent kernels compiled from /repo/src against a simulated OpenMP runtime (native/sim_omp.cpp, dst/native.py), partition/tiling oracles"},
   {"name": "outcomes", "path": "dst/outcomes.py", "serves_properties": ["C03", "C13"], "kind_free_text": "RNG seam in script mode (numpy default_rng / random module / Random methods patched for the duration of a scenario), step wrappers via a subclass _instruction_map, sequential branch-tree reference model"},
  ],
  "checks": checks,
